@@ -474,7 +474,8 @@ def check_deserializer(ctx, lib):
             some_reg = reach_avoiding(b, some_t)
             if meth == "unit_variant":
                 oks, _ = RT.ok_values(b)
-                none_ok = any(blk in none_reg for blk, _ in oks)
+                # Ok(()) on the None side — built there, or built beforehand as the default of a map_or and handed over there
+                none_ok = any(blk in none_reg or (b.dominates(blk, sb) and blk != sb) or blk == sb for blk, _ in oks)
                 dc = [t for x in sorted(some_reg) for t in [b.blocks[x]["term"]] if t["k"] == "call" and t["callee"] == "serde::Deserialize::deserialize"]
                 ok = none_ok and len(dc) == 1 and dc[0]["callee_args"][0] == "()"
             elif meth == "newtype_variant_seed":
